@@ -46,6 +46,7 @@ type aggregate struct {
 	samples    []any
 	findings   map[string][]finding // by signature
 	stalled    int
+	deaths     int // plans that killed their worker and were classified into a finding
 	infra      []string
 }
 
@@ -158,6 +159,7 @@ func runStripe(b *built, opt checkOpts, inf core.Info, w, nRuns int, deadline ti
 			agg.stalled++
 		} else {
 			agg.findings[sig] = append(agg.findings[sig], finding{Signature: sig, Message: msg, Plan: inf2.Plan, Run: inf2.Run, Death: true})
+			agg.deaths++ // executed and accounted for as a finding, although it left no record
 		}
 		mu.Unlock()
 		if inf2.Run <= last && inf2.Run < start {
@@ -469,8 +471,8 @@ func runCheck(opt checkOpts) int {
 		}
 		return 2
 	}
-	if agg.records < nRuns && time.Now().Before(deadline) {
-		fmt.Fprintf(os.Stderr, "INFRA: only %d of %d plans produced a record\n", agg.records, nRuns)
+	if agg.records+agg.deaths < nRuns && time.Now().Before(deadline) {
+		fmt.Fprintf(os.Stderr, "INFRA: only %d of %d plans produced a record\n", agg.records+agg.deaths, nRuns)
 		return 2
 	}
 	if agg.stalled*100 > agg.records && agg.stalled > 0 {
